@@ -48,7 +48,7 @@ CLAIMED = {
     ref="3.2, 4/C08"),
  "C09": dict(
     technique="adversarial property-based testing with an invariant oracle (snapshot/diff of everything outside user space) and observer cross-check",
-    text="User-mode states whose every addressing mode is aimed at boundary and I/O addresses; operand addresses are computed from the decoded word and a register snapshot; a rejected access must be an access/privilege violation with nothing changed (virtual) or a clean vectoring with only the two supervisor-stack words written (real); legal user steps must leave supervisor memory, the I/O page and both devices bit-identical.",
+    text="User-mode states whose every addressing mode is aimed at boundary and I/O addresses; operand addresses are computed from the decoded word and a register snapshot; a rejected access must be an access/privilege violation with nothing changed (virtual) or a clean vectoring with only the two supervisor-stack words written (real); legal user steps must leave supervisor memory, the I/O page and both devices bit-identical. A quarter of the attacks run in strict mode on a fully initialized machine.",
     note="Operand computation is a 20-line function independent of the simulator and of the reference machine.",
     ref="4/C09"),
  "C10": dict(
@@ -63,7 +63,7 @@ CLAIMED = {
     ref="4/C11"),
  "C12": dict(
     technique="differential property-based testing: the same generated program under virtual and real traps",
-    text="Generated user programs (incl. faults raised while a subroutine frame is open and leaf subroutines that do not spill R7 around their I/O traps) ending in HALT or in one of six injected faults run under both settings from identical machines: halting programs give equal display, R0-R5 and user memory; faulting programs give the matching error (virtual) and the OS message after the same output, then halt (real).",
+    text="Generated user programs (incl. faults raised while a subroutine frame is open and leaf subroutines that do not spill R7 around their I/O traps) ending in HALT or in one of six injected faults run under both settings from identical machines: halting programs give equal display, R0-R5 and user memory; faulting programs give the matching error (virtual) and the OS message after the same output, then halt (real). A fifth of the halting programs end in a TRAP through an unassigned vector (the OS's bad-trap routine) instead of HALT.",
     note="Expected OS messages are the documented strings.",
     ref="4/C12"),
  "C13": dict(
@@ -73,7 +73,7 @@ CLAIMED = {
     ref="4/C13"),
  "C14": dict(
     technique="metamorphic twin-run property testing (strict on/off from identical states)",
-    text="Two simulators built from one generated state (uninitialised registers, .blkw block, jumps into OS memory and the I/O page) differ only in the strict flag and are stepped together; unless strict reports a Strict* error, results and complete states must be equal; on fully initialised machines a Strict* error is a violation.",
+    text="Two simulators built from one generated state (uninitialised registers, .blkw block, jumps into OS memory and the I/O page) differ only in the strict flag and are stepped together; unless strict reports a Strict* error, results and complete states must be equal; on fully initialised machines a Strict* error is a violation. Registers and memory are compared with their initialization masks.",
     note="Compares values (not initialisation masks) of all 65536 words after every step.",
     ref="4/C14"),
  "C15": dict(
@@ -118,7 +118,7 @@ CLAIMED = {
     ref="4/C32"),
  "C33": dict(
     technique="bounded-exhaustive and random schedule enumeration with the lock schedule owned by the checking thread",
-    text="The harness holds the keyboard/display buffer lock during chosen steps of echo programs (all single and pairs of single-step holds for short inputs, random multi-step holds for long ones); every input byte must be received and every output byte displayed exactly once, in order. Holds covering the data access within the OS's window (<= 4 instructions) after a ready poll that found the lock free are a listed known finding and excluded while listed.",
+    text="The harness holds the keyboard/display buffer lock during chosen steps of echo programs (all single and pairs of single-step holds for short inputs, random multi-step holds for long ones); every input byte must be received and every output byte displayed exactly once, in order. Holds covering the data access within the OS's window (<= 4 instructions) after a ready poll that found the lock free are a listed known finding and excluded while listed. Holds are placed at absolute steps and relative to the k-th poll of KBSR/DSR (staggered keyboard/display patterns).",
     note="Known finding C33/hold-on-data-access-after-ready-poll; real thread interleavings inside one try_write are not explored (they cannot change a try_* outcome beyond success/failure).",
     ref="4/C33, 6"),
  "C34": dict(
@@ -153,7 +153,7 @@ CLAIMED = {
     ref="4/C21"),
  "C22": dict(
     technique="property-based testing of linked debug info over all link trees of 2-3 files",
-    text="For every (line,address) of every input file the linked object's rev_lookup_line must read the same text; every label's source span must slice the combined source to a spelling of the label; all orders and bracketings.",
+    text="For every (line,address) of every input file the linked object's rev_lookup_line must read the same text; every label's source span must slice the combined source to a spelling of the label; all orders and bracketings. A quarter of the sets contain a file without any memory-occupying statement.",
     note="Texts compared through the library's own read_line on both sides (C25 checks read_line itself).",
     ref="4/C22"),
  "C23": dict(
@@ -173,7 +173,7 @@ CLAIMED = {
     ref="4/C25"),
  "C26": dict(
     technique="property-based testing with fault injection: span accessors of every assembler/linker error",
-    text="The faulty programs of C02 (half of them rendered in a free layout: no final newline, CRLF, trailing blanks and comments) and failing links (file vs origin-shifted copy) produce errors whose span(), first() and iter() are exercised under catch_unwind; assembly spans must lie inside the source on char boundaries and, for label errors, cover a spelling of an offending label.",
+    text="The faulty programs of C02 (half of them rendered in a free layout: no final newline, CRLF, trailing blanks and comments) and failing links (file vs origin-shifted copy) produce errors whose span(), first() and iter() are exercised under catch_unwind; assembly spans must lie inside the source on char boundaries and, for label errors, cover a spelling of an offending label. One source in twelve is longer than 64 KiB.",
     note="Offending labels come from the independent assembler model.",
     ref="4/C26"),
  "C36": dict(
